@@ -401,6 +401,9 @@ func (c *clientHello) parseExtensions() error {
 				if !data.Empty() {
 					return fmt.Errorf("%w: ech ext trailing data", ErrDecodeError)
 				}
+			} else if !data.Empty() {
+				// The inner variant has no fields.
+				return fmt.Errorf("%w: ech ext type inner is not empty", ErrDecodeError)
 			}
 		}
 	}
